@@ -272,16 +272,8 @@ pub open spec fn stakes_of(txx: Seq<Transaction>, j: int, epoch: u64, m: Map<TxH
     &&& forall|h: TxHash| #[trigger] m.contains_key(h) ==> exists|q: int| 0 <= q < j && h == spec_txhash(#[trigger] txx[q]) && stake_reg(txx[q], epoch) == Some(m[h])
     &&& forall|q: int| 0 <= q < j && stake_reg(#[trigger] txx[q], epoch) is Some ==> m.contains_key(spec_txhash(txx[q]))
 }
-/// C04: the covenant carried for `covhash` decodes and evaluates to a true value on (tx, env)
-pub open spec fn script_approves(scripts: Map<Address, Bytes>, covhash: Address, tx: Transaction, env: CovenantEnv) -> bool {
-    scripts.contains_key(covhash) && spec_cov_decode(scripts[covhash]@) is Some
-    && (match spec_exec(spec_cov_decode(scripts[covhash]@)->Some_0, tx, Some(env)) { Some(v) => spec_truthy(v), None => false })
-}
 // ---- check_tx_validity (C04, C13, C01)
 pub open spec fn lock_legacy(network: NetID, height: BlockHeight) -> bool { (network == NetID::Mainnet || network == NetID::Testnet) && height.0 < 900000 }
-pub open spec fn env_of(tx: Transaction, rel: Map<CoinID, CoinDataHeight>, i: int, last_header: Header) -> CovenantEnv {
-    CovenantEnv { parent_coinid: tx.inputs@[i], parent_cdh: rel[tx.inputs@[i]], spender_index: i as u8, last_header: last_header }
-}
 pub uninterp spec fn spec_covenants_map(tx: Transaction) -> Map<Address, Bytes>;     // Transaction::covenants_as_map
 /// A-STRUCTS: the map holds, under each address, a covenant carried by the transaction whose hash is that address
 pub broadcast axiom fn axiom_covenants_map(tx: Transaction, a: Address)
@@ -310,5 +302,59 @@ pub proof fn lemma_in_sums_bound(inputs: Seq<CoinID>, rel: Map<CoinID, CoinDataH
         lemma_in_sums_bound(inputs, rel, n - 1, d);
         let cd = rel[inputs[n - 1]].coin_data;
         lemma_in_sums_bound(inputs, rel, n - 1, cd.denom);
+    }
+}
+// ---- coins a transaction creates (C02)
+/// the i-th output as it enters the coin set: new-token outputs take the transaction's hash as their denomination
+pub open spec fn created_denom(tx: Transaction, i: int) -> Denom { if tx.outputs@[i].denom == Denom::NewCustom { Denom::Custom(spec_txhash(tx)) } else { tx.outputs@[i].denom } }
+pub open spec fn is_created_cdh(tx: Transaction, i: int, height: BlockHeight, d: CoinDataHeight) -> bool {
+    d.height == height && d.coin_data.covhash == tx.outputs@[i].covhash && d.coin_data.value == tx.outputs@[i].value
+    && d.coin_data.additional_data == tx.outputs@[i].additional_data && d.coin_data.denom == created_denom(tx, i)
+}
+/// exactly the outputs not sent to the destruction address, under id (hash, index), with the data above
+pub open spec fn created_map(tx: Transaction, height: BlockHeight, m: Map<CoinID, CoinDataHeight>) -> bool {
+    &&& forall|id: CoinID| #[trigger] m.contains_key(id) <==> exists|i: int| 0 <= i < tx.outputs@.len() && id == #[trigger] cid(tx, i) && tx.outputs@[i].covhash != spec_coin_destroy()
+    &&& forall|i: int| 0 <= i < tx.outputs@.len() && tx.outputs@[i].covhash != spec_coin_destroy() ==> is_created_cdh(tx, i, height, m[#[trigger] cid(tx, i)])
+}
+pub open spec fn created_item_ok(tx: Transaction, height: BlockHeight, i: int, o: Option<(CoinID, CoinDataHeight)>) -> bool {
+    match o { Some(p) => tx.outputs@[i].covhash != spec_coin_destroy() && p.0 == cid(tx, i) && is_created_cdh(tx, i, height, p.1),
+              None => tx.outputs@[i].covhash == spec_coin_destroy() }
+}
+pub proof fn lemma_created_from_pairs(tx: Transaction, height: BlockHeight, opts: Seq<Option<(CoinID, CoinDataHeight)>>)
+    requires opts.len() == tx.outputs@.len(), tx.outputs@.len() <= 255,
+             forall|i: int| 0 <= i < opts.len() ==> created_item_ok(tx, height, i, #[trigger] opts[i])
+    ensures created_map(tx, height, map_of_pairs(opt_flatten(opts)))
+{
+    lemma_opt_flatten(opts);
+    let s = opt_flatten(opts); let m = map_of_pairs(s);
+    assert forall|j: int| 0 <= j < s.len() implies exists|i: int| 0 <= i < tx.outputs@.len() && tx.outputs@[i].covhash != spec_coin_destroy()
+            && (#[trigger] s[j]).0 == cid(tx, i) && is_created_cdh(tx, i, height, s[j].1) by {
+        let i = choose|i: int| 0 <= i < opts.len() && opts[i] == Some(s[j]);
+        assert(created_item_ok(tx, height, i, opts[i]));
+    }
+    assert forall|a: int, b: int| 0 <= a < s.len() && 0 <= b < s.len() && s[a].0 == s[b].0 implies s[a].1 == s[b].1 by {
+        let ia = choose|i: int| 0 <= i < tx.outputs@.len() && tx.outputs@[i].covhash != spec_coin_destroy() && s[a].0 == cid(tx, i) && is_created_cdh(tx, i, height, s[a].1);
+        let ib = choose|i: int| 0 <= i < tx.outputs@.len() && tx.outputs@[i].covhash != spec_coin_destroy() && s[b].0 == cid(tx, i) && is_created_cdh(tx, i, height, s[b].1);
+        assert(ia as u8 == ib as u8); assert(ia == ib);
+    }
+    assert forall|id: CoinID| #[trigger] m.contains_key(id) <==> exists|i: int| 0 <= i < tx.outputs@.len() && id == #[trigger] cid(tx, i) && tx.outputs@[i].covhash != spec_coin_destroy() by {
+        lemma_map_of_pairs(s, id);
+        if m.contains_key(id) { let j = choose|j: int| 0 <= j < s.len() && (#[trigger] s[j]).0 == id;
+            let i = choose|i: int| 0 <= i < tx.outputs@.len() && tx.outputs@[i].covhash != spec_coin_destroy() && s[j].0 == cid(tx, i) && is_created_cdh(tx, i, height, s[j].1);
+            assert(id == cid(tx, i)); }
+        if exists|i: int| 0 <= i < tx.outputs@.len() && id == #[trigger] cid(tx, i) && tx.outputs@[i].covhash != spec_coin_destroy() {
+            let i = choose|i: int| 0 <= i < tx.outputs@.len() && id == #[trigger] cid(tx, i) && tx.outputs@[i].covhash != spec_coin_destroy();
+            assert(created_item_ok(tx, height, i, opts[i]));
+            assert(opts[i] is Some);
+            let j = choose|j: int| 0 <= j < s.len() && s[j] == opts[i]->Some_0;
+            assert(s[j].0 == id);
+        }
+    }
+    assert forall|i: int| 0 <= i < tx.outputs@.len() && tx.outputs@[i].covhash != spec_coin_destroy() implies is_created_cdh(tx, i, height, m[#[trigger] cid(tx, i)]) by {
+        assert(created_item_ok(tx, height, i, opts[i]));
+        assert(opts[i] is Some);
+        let j = choose|j: int| 0 <= j < s.len() && s[j] == opts[i]->Some_0;
+        lemma_map_of_pairs_fn(s, cid(tx, i));
+        assert(s[j].0 == cid(tx, i));
     }
 }
